@@ -10,10 +10,13 @@ class MatrixOfCellIdentifiersExpressionTokenTranslator(AbstractTranslator):
         from excel2pycl.src.translators.matrix_of_cell_identifiers_token_translator import \
             MatrixOfCellIdentifiersTokenTranslator
 
-        left, right = token.operands
+        if len(token.value) == 1:
+            # a single area without & (the grammar allows it, e.g. INDEX(A1:B2,C1:D1)) is just that area
+            return MatrixOfCellIdentifiersTokenTranslator.translate(token.value[0], excel, context)
 
-        list1 = MatrixOfCellIdentifiersTokenTranslator.translate(left, excel, context)
-        list2 = MatrixOfCellIdentifiersTokenTranslator.translate(right, excel, context)
+        # area & area & ... : the right operand is an expression of the same kind
+        list1 = MatrixOfCellIdentifiersTokenTranslator.translate(token.value[0], excel, context)
+        list2 = cls.translate(token.value[2], excel, context)
 
         return context.set_sub_cell(
             token.in_cell, f'self._concat_arrays_values(self._flatten_list({list1}), self._flatten_list({list2}))'
